@@ -3,8 +3,12 @@ CONSTANTS
   BaseTables = {"minimal", "odd", "even", "mixed", "zeros", "max"}
   Targets = {"cls", "inst", "ts", "impl", "ivn", "src", "snd", "rcv", "pcu", "ver", "priv", "gl", "other2", "foreign", "nested"}
   ActNames = {"Remove","Empty","SetVr","Truncate","PushStr","PushU16","SetStr","Set","SetIfMissing","SetStrIfMissing","Replace","ReplaceStr"}
-  MaxLen = 1
-  Mode = "ops"
+  MaxLen = 2
+  Modes = {"ops", "tables", "files"}
+  DeepBases = {"minimal", "mixed"}
+  DeepTargets = {"cls", "ts", "ivn", "src", "pcu", "priv", "other2"}
+  DeepActNames = {"Remove","Empty","Truncate","SetStr","SetIfMissing","Replace","PushStr"}
+  FileBases = {"odd", "even", "mixed"}
 SPECIFICATION GSpec
 VIEW View
 CHECK_DEADLOCK FALSE
